@@ -364,6 +364,43 @@ def wl_partition(ctx, rng, i):
                 ctx.count("nested_federations")
             except Exception as e:
                 ctx.violation("navigation-raised", "nested composite raised %s" % type(e).__name__, dict(c3, exception=repr(e)))
+            # an inner composite with a filter of its own, attached before a sibling source, under an outer composite with another
+            # filter: the inner filter is the inner composite's business only
+            if nmem >= 2:
+                try:
+                    f2 = gen_filter(rng, union)
+                    k = rng.randrange(1, nmem)
+                    left, right = ListModel(), ListModel()
+                    for a in range(k):
+                        for j in contents[a].items:
+                            left.add(j)
+                    for a in range(k, nmem):
+                        for j in contents[a].items:
+                            right.add(j)
+                    exp_nested = {key(j) for j in evaluate([f, f2], left.items, TS_PROPS)} | {key(j) for j in evaluate([f], right.items, TS_PROPS)}
+                    inner2 = stix2.CompositeDataSource()
+                    inner2.add_data_sources([members[a][1].source for a in range(k)])
+                    inner2.filters.add(to_lib(f2))
+                    outer3 = stix2.CompositeDataSource()
+                    outer3.add_data_source(inner2)
+                    outer3.add_data_sources([members[a][1].source for a in range(k, nmem)])
+                    outer3.filters.add(to_lib(f))
+                    c5 = dict(case, nesting="outer(filter %s) -> [inner(filter %s) over %d member(s), %d sibling member(s)]" % (fdesc(f), fdesc(f2), k, nmem - k))
+                    with warnings.catch_warnings():
+                        warnings.simplefilter("ignore")
+                        got = outer3.query()
+                    ctx.ev()
+                    ctx.count("nested_sibling_federations")
+                    if set(keys(got)) != exp_nested:
+                        ctx.violation("composite-filters-leak-to-sibling", "outer composite over [filtered inner composite, sibling]: %d expected, %d returned" % (len(exp_nested), len(set(keys(got)))), c5)
+                    else:
+                        again = outer3.query()
+                        if set(keys(again)) != exp_nested:
+                            ctx.violation("composite-filters-leak-to-sibling", "the second identical query through the outer composite differs from the first", c5)
+                except Unjudged:
+                    pass
+                except Exception as e:
+                    ctx.violation("navigation-raised", "nested composite with sibling raised %s" % type(e).__name__, dict(case, exception=repr(e)))
         # each single member against its own content; environments
         for m, (kind, st) in enumerate(members):
             if contents[m].items:
